@@ -25,6 +25,11 @@ CHECKS = {
    text="core_exact (l reported iff every model contains l), core_with_assumptions_exact, core_candidate_exact for every well-formed array. Tie: get_core, core_dead/core/dead_with_assumptions and stream core (plain and per-candidate) diffed with the model on exported arrays and compared with the truth table for all assumption lists of length <=2 (n<=5) and sampled length 3; corpus: core literal iff count of complement is 0. The check found and the repo now carries the repair of calculate_core (known_findings: fixed c47cc16).",
    note="Requires count > 0 (satisfiable model) for core_exact. HashSet order of the library result is canonicalised by sorting.",
    ref="DESIGN.md §8 C05"),
+ "C06": dict(
+   technique="Lean 4 theorems: enumerate_node = slice of the fixed model list (and/or prefix lemmas), cursor state machine invariant over arbitrary request histories + correspondence on exact pages",
+   text="paging_history: in any history of requests (interleaved with other assumption sets) the requests for one key are answered by consecutive pages of the fixed list of models containing A, min(k, remaining) each, restarting at 0 after the last model; page_source_is_model_set: that list is duplicate free, consists of complete configurations that are models containing A and has count(A) elements; none_iff_unsat; key_independent_of_order. Tie: every page of every history (all amount sequences over {1,2,3,5,count,count+1} to two cycles for small counts) is compared literally (same configurations, same order) with the Lean cursor machine on the exported array, and judged by the truth-table oracle; library and stream interfaces.",
+   note="Side conditions EnumOK (children before parents, no True child under an or-node, root not True) are decided by the driver per exported array (q enumok). Modelled, not verified: usize conversions of BigInt (to_usize panics for > 2^64 models per page are outside the model), Mutex/Arc of the cursor (C17), itertools::multi_cartesian_product order (modelled by prodConfigs and tied by exact page comparison). FFI DdnnfMut::enumerate is a thin wrapper (read, not run).",
+   ref="DESIGN.md §8 C06"),
  "C01": dict(
    technique="Lean 4 theorem (count = number of satisfying assignments for every well-formed node array) + per-input validated loader correspondence",
    text="Theorems count_is_model_count / same_function_same_count hold for every well-formed node array of any size (induction over the array, kernel-checked). The loader is tied per input: the Lean driver evaluates the decidable WF predicate and the truth table on the node array the real loader exported and compares with the truth table of the input text; the real code is compared with an independent oracle.",
